@@ -507,9 +507,12 @@ func parseAddr(s string) *net.TCPAddr {
 }
 
 func (r *refRun) open(c int, addr string, extra E) *refConnState {
+	r.mu.Lock()
 	r.nconn++
+	nc := r.nconn
+	r.mu.Unlock()
 	ta := parseAddr(addr)
-	ta.Port = 10000 + r.nconn%50000
+	ta.Port = 10000 + nc%50000
 	conn := NewFakeConn(c, ta, r.rec)
 	conn.quiet = true
 	st := &refConnState{c: c, conn: conn}
